@@ -47,6 +47,24 @@ def norm_serial(s):
     return int(s)
 
 
+# reference facts about a few elements, independent of mdtraj's tables
+ELEM_REF = {"H": ("hydrogen", 1, 1.008), "D": ("deuterium", 1, 2.014), "C": ("carbon", 6, 12.011), "VS": ("virtual_site", 0, 0.0),
+            "ZN": ("zinc", 30, 65.41), "CL": ("chlorine", 17, 35.45)}
+
+
+def elem_token(e):
+    """The element of an atom as the model sees it: its symbol -- provided the object IS the module's singleton
+    registered under that symbol and its name, atomic number and mass are the ones that singleton (and, for a few
+    elements, an independent reference) has.  Anything else yields a token no model output can equal."""
+    sym = str(e.symbol)
+    ref = elem.Element._elements_by_symbol.get(sym.strip().upper())
+    ok = ref is not None and e is ref and e.name == ref.name and e.atomic_number == ref.atomic_number and float(e.mass) == float(ref.mass)
+    if ok and sym.upper() in ELEM_REF:
+        nm, num, mass = ELEM_REF[sym.upper()]
+        ok = e.name == nm and e.atomic_number == num and abs(float(e.mass) - mass) < 0.01
+    return sym if ok else "%s!%s!%s!%s" % (sym, e.name, e.atomic_number, e.mass)
+
+
 def index_is(lst, obj):
     for i, x in enumerate(lst):
         if x is obj:
@@ -59,7 +77,7 @@ def dump(t):
     for c in t._chains:
         rs = []
         for r in c._residues:
-            ats = [[str(a.name), str(a.element.symbol), int(a.index), norm_serial(a.serial), a.residue is r]
+            ats = [[str(a.name), elem_token(a.element), int(a.index), norm_serial(a.serial), a.residue is r]
                    for a in r._atoms]
             rs.append([str(r.name), int(r.index), int(r.resSeq), str(r.segment_id), r.chain is c, ats])
         chains.append([int(c.index), None if c.chain_id is None else str(c.chain_id), rs])
@@ -134,7 +152,12 @@ def apply(tops, op, tmp):
             new = traj_of(t).stack(traj_of(u), keep_resSeq=keep).topology
         tops.append(new)
     elif k == "pickle":
-        tops.append(pickle.loads(pickle.dumps(t)))
+        how = op[2] if len(op) > 2 else "p2"
+        if how == "traj":        # a pickled Trajectory carries its topology
+            tr = traj_of(t)
+            tops.append(pickle.loads(pickle.dumps(tr, pickle.HIGHEST_PROTOCOL)).topology)
+        else:
+            tops.append(pickle.loads(pickle.dumps(t, 2 if how == "p2" else pickle.HIGHEST_PROTOCOL)))
     elif k == "df":
         atoms, bonds = t.to_dataframe()
         tops.append(md.Topology.from_dataframe(atoms, bonds))
@@ -144,7 +167,9 @@ def apply(tops, op, tmp):
         tops.append(md.load(fn).topology)
     elif k == "pdb":
         fn = os.path.join(tmp, "t.pdb")
-        traj_of(t).save_pdb(fn, ter=bool(op[2]))
+        tr = traj_of(t)
+        tr.xyz[0, :, 0] = np.arange(t.n_atoms) * 1.0     # 1 nm apart: the reader's distance-based disulfide
+        tr.save_pdb(fn, ter=bool(op[2]))                  # detection (not modelled) finds nothing
         tops.append(md.load(fn).topology)
     else:
         raise SystemExit("unknown op %r" % (op,))
@@ -183,9 +208,10 @@ def std_bond_atoms():
 
 
 def pdb_ok(t):
-    """Guards of the PDB runs of the model stream (see ASSUMPTIONS in harness/props/C04.py): the reader must
-    neither rename anything nor regenerate standard bonds.  A residue may carry a standard name (ALA, HOH, DA, ...)
-    as long as it is the canonical spelling and none of its atoms has a name the reader's tables know."""
+    """Guards of the PDB runs of the model stream (see ASSUMPTIONS in harness/props/C04.py).  The model covers
+    the reader's standard bonds (residues.xml) but not its renaming tables (pdbNames.xml): a residue may carry a
+    standard name when it is the canonical spelling and every atom name is either unknown to the renaming table
+    of that residue or its own canonical spelling."""
     from mdtraj.formats.pdb.pdbfile import PDBTrajectoryFile
     if t.n_atoms < 1:
         return False
@@ -199,9 +225,10 @@ def pdb_ok(t):
         if short in rrep or short in arep or short.strip() in rrep:
             if len(name) > 3 or rrep.get(short, short) != short:
                 return False
-            known = set(arep.get(short, {})) | std_bond_atoms().get(short, set())
+            table = arep.get(short, {})
             for a in r.atoms:
-                if str(a.name)[:4] in known or str(a.name) in known or str(a.name) == "SG":
+                an = str(a.name)
+                if len(an) > 4 or table.get(an, an) != an:
                     return False
         if not (-9998 < int(r.resSeq) < 9999 or int(r.resSeq) == 10005):
             return False
@@ -235,7 +262,10 @@ def concretise(tops, op):
             how = "join"
         return ["join", s, s2, bool(op[3]), how]
     if k == "pickle":
-        return ["pickle", s]
+        how = op[2] if len(op) > 2 else "p2"
+        if how == "traj" and t.n_atoms < 1:
+            how = "phigh"
+        return ["pickle", s, how]
     if k == "df":
         return ["df", s] if t.n_atoms >= 1 else None
     if k == "h5":
